@@ -36,7 +36,12 @@ def _child_main(fn, arg, wfd, limit):
         except BaseException as exc:  # harness bug inside the child
             out = {'harness_error': ''.join(
                 traceback.format_exception(type(exc), exc, exc.__traceback__))}
-        data = json.dumps(out).encode()
+        try:
+            data = json.dumps(out).encode()
+        except BaseException as exc:  # a result that is not plain JSON
+            data = json.dumps({'harness_error': ''.join(
+                traceback.format_exception(type(exc), exc,
+                                           exc.__traceback__))}).encode()
         with os.fdopen(wfd, 'wb') as w:
             w.write(data)
     finally:
